@@ -99,6 +99,11 @@ func (ip *Interp) clockNow() Value {
 		return Tuple{i64(1700000000), Const(SBV32, 0), i64(1)}
 	}
 	tc := ip.TC
+	if w.ex.Cfg.Params["CONCRETECLOCK"] == 1 {
+		k := int64(len(w.clockReads))
+		w.clockReads = append(w.clockReads, [2]*Term{nil, nil})
+		return Tuple{i64(1700000000 + 1000*k), Const(SBV32, uint64((k*377000001+999999)%1000000000)), i64(1)}
+	}
 	sec := w.freshVar(SBV64)
 	nsec := w.freshVar(SBV32)
 	w.inputs = append(w.inputs, Input{Kind: "aux", Vars: []*Term{sec}}, Input{Kind: "aux", Vars: []*Term{nsec}})
